@@ -26,6 +26,11 @@ class LocalOnlyError(Exception):
         super().__init__("%s|%s" % (a, b))
 
 
+class Outer:
+    class NestedError(Exception):
+        """an exception class with a dotted qualified name"""
+
+
 def make_value(desc, child_sum=0):
     """value descriptor -> python value (the documented result domain)"""
     import numpy as np
@@ -112,6 +117,12 @@ def _run(name, spec, extra=None):
             raise NonMemoizedException(msg)
         if cls == "LocalOnly":
             raise LocalOnlyError(msg, "x")
+        if cls == "FnLocal":
+            class FnLocalError(Exception):      # a class that cannot be located again by name
+                pass
+            raise FnLocalError(msg)
+        if cls == "Nested":
+            raise Outer.NestedError(msg)
         raise {"ValueError": ValueError, "KeyError": KeyError, "IOError": IOError,
                "ZeroDivisionError": ZeroDivisionError}[cls](msg)
     val = make_value(spec.get("ret", {"k": "sum", "v": spec.get("id", 0)}), total)
